@@ -988,6 +988,9 @@ func (p *balloons) fillableBalloonInstances(blnDef *BalloonDef, fm FillMethod, c
 		undoFuncs = append(undoFuncs, func() {
 			p.forgetCpuClass(newBln)
 			p.freeCpus = p.freeCpus.Union(newBln.Cpus)
+			// The CPUs are idle again: share them with the
+			// balloons that share idle CPUs in their scope.
+			p.updatePinning(p.shareIdleCpus(newBln.Cpus, cpuset.New())...)
 		})
 		if newBln.MaxAvailMilliCpus(p.freeCpus) < reqMilliCpus {
 			// New balloon cannot be inflated to fit new
